@@ -46,7 +46,12 @@ def envFiles : Handler := fun args =>
   let lookup := envOfList (getStrMap args "lookup")
   outJson (CV.Dotenv.fromFiles lookup files [])
 
-def handlers1 : List (String × Handler) := [("dotenv", dotenv), ("envFiles", envFiles)]
+def readFilesOp : Handler := fun args =>
+  let files := (getStrList args "files").map String.toList
+  let lookup := envOfList (getStrMap args "lookup")
+  outJson (CV.Dotenv.readFiles lookup files [])
+
+def handlers1 : List (String × Handler) := [("dotenv", dotenv), ("envFiles", envFiles), ("readFiles", readFilesOp)]
 
 end CV.Ops.C18
 
